@@ -1,20 +1,29 @@
 (* C07: what the dud commands do NOT write.  All theorems are about Model/System.v [step]
-   (hash [H], command table [sems] and world [w] arbitrary unless a premise says otherwise).
+   (hash [H], command table [sems] and world [w] arbitrary; premises are spelled out).
 
      C07_readonly                   status / graph return the very same world
      C07_no_stage_write             run / checkout / status / graph / push / fetch keep w_stages, w_index
      C07_no_cache_write             every command but commit keeps w_cache
      C07_failed_step_unchanged      a step that reports failure returns the old world
-     C07_status_cache_free, C07_graph_cache_free, C07_run_stage_files_unchanged ...  corollaries
-     C07_run_only_commands_write    run, over an arbitrary [exec]: the final root is the initial
-                                    one threaded through [exec] for the stages of the log, in order
-     C07_run_pure_exec_root         ... hence unchanged when exec never changes the tree
-     C07_commit_frame               commit: an entry that is a regular file, and that every
-                                    artifact committed by the command either lies apart from or
-                                    names as a plain input / skip-cache output, is unchanged
-     C07_inputs_untouched, C07_skip_outputs_untouched   the two instances asked for
-   Examples at the end (vm_compute): non-vacuity, and two counterexamples showing that the
-   premise [frame_ok] of C07_commit_frame cannot be dropped. *)
+     C07_status_cache_free, C07_graph_cache_free, C07_run_cache_free, C07_checkout_cache_free,
+     C07_push_cache_free, C07_fetch_cache_free, C07_stage_add_cache_free, C07_stage_rm_cache_free,
+     C07_{run,checkout,push,fetch}_stage_files_unchanged, C07_root_untouched      corollaries
+     C07_run_only_commands_write    run over an arbitrary [exec] (step_run_gen; step_CRun_gen shows
+                                    it is [step]'s CRun case): the final root is the initial one
+                                    threaded through [exec] for the stages of the log, in log order
+     C07_run_pure_exec_root         ... hence the world is unchanged when exec never changes the tree
+     C07_run_step_chain, C07_run_nothing_executed    the same for the model's exec table
+     C07_commit_frame               commit: an entry that is a regular file (or absent), and that
+                                    every artifact the command may commit either lies apart from
+                                    or names as a plain input / skip-cache output ([frame_ok]),
+                                    is physically unchanged
+     C07_inputs_untouched, C07_skip_outputs_untouched   its two instances
+     C07_checkout_frame             checkout: entries apart from every non-skip output are unchanged
+   The get/put frame lemmas (get_put_apart, get_put_same) hold for arbitrary trees: sortedness of
+   the directory entry lists (CacheDefs.sorted_tree) is NOT needed.
+   Examples at the end (vm_compute, H := identity): non-vacuity, and two counterexamples
+   (cex_dir_input, cex_unclean_path) showing that [frame_ok] cannot simply be dropped from
+   C07_inputs_untouched. *)
 From Coq Require Import NArith List Bool Lia String.
 From DudV Require Import Base.Bytes Base.Json Base.GoPath Model.Fs Model.Cache Model.Stage Model.Index.
 From DudV Require Import Model.System.
@@ -706,3 +715,253 @@ End CommitStep.
 Print Assumptions C07_commit_frame.
 Print Assumptions C07_inputs_untouched.
 Print Assumptions C07_skip_outputs_untouched.
+
+(* ------------------------------------------------------------------------------------------ *)
+(* checkout: only non-skip outputs are (re)placed; everything apart from them is untouched      *)
+(* ------------------------------------------------------------------------------------------ *)
+Section CheckoutFrame.
+  Variable H : bytes -> bytes.
+  Variable idx : index.
+  Variable c : cache.
+  Variable strat : strategy.
+  Variable cp : list bytes.
+
+  Definition co_frame_ok : Prop :=
+    forall sp stg, In (sp, stg) idx ->
+      forall o, In o (s_outputs stg) -> a_skip o = true \/ apartc (comps (a_path o)) cp.
+
+  Hypothesis wf : co_frame_ok.
+
+  Lemma checkout_top_frame fuel a root root' :
+    a_skip a = true \/ apartc (comps (a_path a)) cp ->
+    checkout_top H fuel a root c strat = Ok root' -> get root' cp = get root cp.
+  Proof.
+    intros Hwf. unfold checkout_top. destruct (a_skip a) eqn:Hskip.
+    { intros Heq. inversion Heq. reflexivity. }
+    destruct Hwf as [Hf|Hap]; [discriminate|].
+    destruct (slot_of root (a_path a)) as [slot|]; [|discriminate].
+    destruct (checkout_art H fuel a slot c strat) as [slot'|]; [|discriminate].
+    destruct (put root (comps (a_path a)) slot') as [r|] eqn:Hput; [|discriminate].
+    intros Heq. inversion Heq; subst. eapply get_put_apart; eassumption.
+  Qed.
+
+  Lemma checkout_arts_frame fuel : forall arts root root',
+    (forall o, In o arts -> a_skip o = true \/ apartc (comps (a_path o)) cp) ->
+    checkout_arts H fuel arts root c strat = Ok root' -> get root' cp = get root cp.
+  Proof.
+    induction arts as [|a r IH]; intros root root' Hwf; cbn [checkout_arts].
+    - intros Heq. inversion Heq. reflexivity.
+    - destruct (checkout_top H fuel a root c strat) as [root1|] eqn:Htop; [|discriminate].
+      intros Hrest. rewrite (IH root1 root' (fun o Ho => Hwf o (or_intror Ho)) Hrest).
+      eapply checkout_top_frame; [apply Hwf; left; reflexivity|exact Htop].
+  Qed.
+
+  Definition cof_spec (recursive : bool) (f : nat) : Prop :=
+    forall stack root done sp root' done',
+      checkout_stage H f idx c strat recursive root done stack sp = Ok (root', done') ->
+      get root' cp = get root cp.
+
+  Lemma co_ins_frame recursive f stack :
+    cof_spec recursive f ->
+    forall arts root done root' done',
+      co_ins H idx c strat recursive f stack arts root done = Ok (root', done') ->
+      get root' cp = get root cp.
+  Proof.
+    destruct recursive; intros IH;
+      (induction arts as [|a r IHr]; intros root done root' done' Hrun; cbn [co_ins] in Hrun;
+       [inversion Hrun; reflexivity|]);
+      (destruct (find_owner idx (a_path a)) as [[op up]|]; [|eapply IHr; exact Hrun]).
+    - destruct (checkout_stage H f idx c strat true root done stack op) as [[root1 done1]|] eqn:Hsub;
+        [|discriminate].
+      rewrite (IHr _ _ _ _ Hrun). eapply IH. exact Hsub.
+    - eapply IHr; exact Hrun.
+  Qed.
+
+  Lemma checkout_stage_frame recursive : forall f, cof_spec recursive f.
+  Proof.
+    induction f as [|f IH]; intros stack root done sp root' done' Hrun.
+    { cbn [checkout_stage] in Hrun. discriminate. }
+    rewrite checkout_stage_S in Hrun.
+    destruct (mem sp done); [inversion Hrun; reflexivity|].
+    destruct (mem sp stack); [discriminate|].
+    destruct (alookup sp idx) as [stg|] eqn:Hstg; [|discriminate].
+    destruct (co_ins H idx c strat recursive f (sp :: stack) (s_inputs stg) root done)
+      as [[root1 done1]|] eqn:Hins; [|discriminate].
+    destruct (checkout_arts H 64 (s_outputs stg) root1 c strat) as [root2|] eqn:Harts; [|discriminate].
+    inversion Hrun; subst root' done'.
+    rewrite (checkout_arts_frame 64 _ _ _ (wf sp stg (alookup_In _ _ _ Hstg)) Harts).
+    eapply co_ins_frame; [exact IH|exact Hins].
+  Qed.
+
+  Lemma checkout_targets_frame recursive fuel : forall ts root done root' done',
+    checkout_targets H idx c strat recursive fuel ts (Ok (root, done)) = Ok (root', done') ->
+    get root' cp = get root cp.
+  Proof.
+    induction ts as [|t r IH]; intros root done root' done' Hrun.
+    - cbn in Hrun. inversion Hrun. reflexivity.
+    - rewrite checkout_targets_cons in Hrun.
+      destruct (checkout_stage H fuel idx c strat recursive root done [] t) as [[root1 done1]|] eqn:Hone.
+      + rewrite (IH _ _ _ _ Hrun). eapply checkout_stage_frame. exact Hone.
+      + rewrite checkout_targets_Err in Hrun. discriminate.
+  Qed.
+End CheckoutFrame.
+
+(* checkout (successful or not) leaves alone every entry that lies apart from all non-skip
+   outputs: in particular plain inputs and skip-cache artifacts, whatever kind of entry they are *)
+Theorem C07_checkout_frame H sems w ts copy single idx p :
+  load_index (w_index w) (w_stages w) [] = Some idx ->
+  co_frame_ok idx (comps p) ->
+  get (w_root (fst (fst (step H sems w (CCheckout ts copy single))))) (comps p) = get (w_root w) (comps p).
+Proof.
+  intros Hload Hwf. destruct (w_lock w) eqn:Hlock.
+  { unfold step. rewrite Hlock. reflexivity. }
+  destruct idx as [|e r] eqn:Hidx.
+  { unfold step. rewrite Hlock, Hload. reflexivity. }
+  rewrite <- Hidx in Hload, Hwf.
+  rewrite (step_CCheckout H sems w idx Hlock Hload ts copy single) by (rewrite Hidx; discriminate).
+  destruct (checkout_targets H idx (w_cache w) (strat_of copy)
+                             (match ts with [] => true | _ => negb single end) (fuel_of idx)
+                             (all_or ts idx) (Ok (w_root w, []))) as [[root done]|] eqn:Hrun;
+    [|reflexivity].
+  cbn [fst w_root]. eapply checkout_targets_frame; [exact Hwf|exact Hrun].
+Qed.
+
+Print Assumptions C07_checkout_frame.
+
+(* ------------------------------------------------------------------------------------------ *)
+(* Examples (H := identity, so the digest of a file is its content)                             *)
+(* ------------------------------------------------------------------------------------------ *)
+Module C07Examples.
+  Definition idH : bytes -> bytes := fun b => b.
+  Definition s (x : string) : bytes := of_string x.
+  Definition art (p : string) : artifact := mkArt [] (s p) false false false.
+
+  (* one stage: plain input src.txt, output out.txt *)
+  Definition stA : stage := mkStage [] (s "cmd") [] [art "src.txt"] [art "out.txt"].
+  Definition w1 : world :=
+    mkW (Dir [(s "out.txt", File (s "output")); (s "src.txt", File (s "source"))]) []
+        [(s "a.yaml", Some stA)] [s "a.yaml"] false.
+  Definition idx1 : index := [(s "a.yaml", stA)].
+
+  Example ex_load : load_index (w_index w1) (w_stages w1) [] = Some idx1.
+  Proof. vm_compute. reflexivity. Qed.
+
+  (* commit succeeds, out.txt is replaced by a link into the cache, src.txt is the same File,
+     and the cache holds exactly the output *)
+  Example ex_commit :
+    let r := step idH [] w1 (CCommit [] false) in
+    snd (fst r) = true /\
+    get (w_root (fst (fst r))) (comps (s "src.txt")) = Some (File (s "source")) /\
+    get (w_root w1) (comps (s "src.txt")) = Some (File (s "source")) /\
+    get (w_root (fst (fst r))) (comps (s "out.txt")) = Some (LinkC (s "output")) /\
+    map fst (w_cache (fst (fst r))) = [s "output"].
+  Proof. vm_compute. repeat split. Qed.
+
+  Example ex_status : fst (fst (step idH [] w1 (CStatus []))) = w1 /\ snd (fst (step idH [] w1 (CStatus []))) = true.
+  Proof. vm_compute. split; reflexivity. Qed.
+
+  Example ex_graph : step idH [] w1 (CGraph []) = (w1, true, ONone).
+  Proof. vm_compute. reflexivity. Qed.
+
+  (* the premises of C07_inputs_untouched are satisfiable: the theorem applies to this world *)
+  Example ex_frame_ok : frame_ok idx1 (comps (s "src.txt")).
+  Proof.
+    intros sp stg [Heq|[]]. inversion Heq; subst sp stg. split.
+    - intros o [Ho|[]]. subst o. left. split; vm_compute; reflexivity.
+    - intros i [Hi|[]] _. subst i. right. vm_compute. reflexivity.
+  Qed.
+
+  Example ex_inputs_untouched :
+    get (w_root (fst (fst (step idH [] w1 (CCommit [] false))))) (comps (s "src.txt")) =
+    get (w_root w1) (comps (s "src.txt")).
+  Proof.
+    destruct (step idH [] w1 (CCommit [] false)) as [[w' ok] out] eqn:Hstep. cbn [fst].
+    assert (Hok : ok = true).
+    { change ok with (snd (fst (w', ok, out))). rewrite <- Hstep. vm_compute. reflexivity. }
+    subst ok.
+    apply (C07_inputs_untouched idH [] w1 [] false w' out idx1 (s "a.yaml") stA (art "src.txt") (s "source")).
+    - exact Hstep.
+    - exact ex_load.
+    - left. reflexivity.
+    - left. reflexivity.
+    - vm_compute. reflexivity.
+    - vm_compute. reflexivity.
+    - exact ex_frame_ok.
+  Qed.
+
+  (* a skip-cache output is checksummed and left in place; the cache stays empty *)
+  Definition stS : stage :=
+    mkStage [] (s "cmd") [] [] [mkArt [] (s "big.bin") false false true].
+  Definition wS : world :=
+    mkW (Dir [(s "big.bin", File (s "payload"))]) [] [(s "s.yaml", Some stS)] [s "s.yaml"] false.
+  Example ex_skip_output :
+    let r := step idH [] wS (CCommit [] false) in
+    snd (fst r) = true /\ w_root (fst (fst r)) = w_root wS /\ w_cache (fst (fst r)) = [] /\
+    match alookup (s "s.yaml") (w_stages (fst (fst r))) with
+    | Some (Some st) => map a_cs (s_outputs st) = [s "payload"]
+    | _ => False
+    end.
+  Proof. vm_compute. repeat split. Qed.
+
+  (* a run with a command that copies src.txt to out.txt: the stage files and the cache are
+     untouched, only the output of the command changes *)
+  Definition sems1 : list (bytes * cmdsem) := [(s "a.yaml", mkCmd [s "src.txt"] (s "out.txt") (s "A"))].
+  Example ex_run :
+    let r := step idH sems1 w1 (CRun [] false) in
+    snd (fst r) = true /\ snd r = ORun [s "a.yaml"] /\
+    w_stages (fst (fst r)) = w_stages w1 /\ w_cache (fst (fst r)) = w_cache w1 /\
+    get (w_root (fst (fst r))) (comps (s "out.txt")) = Some (File (s "source")) /\
+    get (w_root (fst (fst r))) (comps (s "src.txt")) = Some (File (s "source")).
+  Proof. vm_compute. repeat split. Qed.
+
+  (* checkout after commit + loss of out.txt: the link comes back, src.txt is not touched *)
+  Definition w1c : world := fst (fst (step idH [] w1 (CCommit [] false))).
+  Definition w1d : world :=
+    mkW (Dir [(s "src.txt", File (s "source"))]) (w_cache w1c) (w_stages w1c) (w_index w1c) false.
+  Example ex_checkout :
+    let r := step idH [] w1d (CCheckout [] false false) in
+    snd (fst r) = true /\
+    get (w_root (fst (fst r))) (comps (s "out.txt")) = Some (LinkC (s "output")) /\
+    get (w_root (fst (fst r))) (comps (s "src.txt")) = Some (File (s "source")) /\
+    w_cache (fst (fst r)) = w_cache w1d /\ w_stages (fst (fst r)) = w_stages w1d.
+  Proof. vm_compute. repeat split. Qed.
+
+  (* ---- the premise frame_ok cannot be dropped: two counterexamples to
+          "an un-owned input that is a regular file is never touched by commit" ---- *)
+
+  (* (a) finding D5 seen from a neighbour: stage b has the DIRECTORY d as a plain input, stage a
+     has the file d/src.txt as a plain input; nobody owns either, yet committing b commits the
+     directory fully and turns d/src.txt into a link *)
+  Definition stB1 : stage := mkStage [] (s "cmd") [] [art "d/src.txt"] [art "outA"].
+  Definition stB2 : stage := mkStage [] (s "cmd") [] [mkArt [] (s "d") true false false] [art "outB"].
+  Definition w2 : world :=
+    mkW (Dir [(s "d", Dir [(s "src.txt", File (s "source"))]);
+              (s "outA", File (s "aaaa")); (s "outB", File (s "bbbb"))]) []
+        [(s "a.yaml", Some stB1); (s "b.yaml", Some stB2)] [s "a.yaml"; s "b.yaml"] false.
+  Example cex_dir_input :
+    let r := step idH [] w2 (CCommit [] false) in
+    snd (fst r) = true /\
+    option_map (fun idx => find_owner idx (s "d/src.txt")) (load_index (w_index w2) (w_stages w2) [])
+      = Some None /\
+    get (w_root w2) (comps (s "d/src.txt")) = Some (File (s "source")) /\
+    get (w_root (fst (fst r))) (comps (s "d/src.txt")) = Some (LinkC (s "source")).
+  Proof. vm_compute. repeat split. Qed.
+
+  (* (b) ownership compares path STRINGS, the workspace resolves COMPONENTS: the output ./src.txt
+     does not own the input src.txt (and Stage.validate accepts the stage), but it is the same
+     entry, and commit moves it into the cache *)
+  Definition stC : stage := mkStage [] (s "cmd") [] [art "src.txt"] [art "./src.txt"].
+  Definition w3 : world :=
+    mkW (Dir [(s "src.txt", File (s "source"))]) [] [(s "a.yaml", Some stC)] [s "a.yaml"] false.
+  Example cex_unclean_path :
+    let r := step idH [] w3 (CCommit [] false) in
+    snd (fst r) = true /\
+    option_map (fun idx => find_owner idx (s "src.txt")) (load_index (w_index w3) (w_stages w3) [])
+      = Some None /\
+    get (w_root w3) (comps (s "src.txt")) = Some (File (s "source")) /\
+    get (w_root (fst (fst r))) (comps (s "src.txt")) = Some (LinkC (s "source")).
+  Proof. vm_compute. repeat split. Qed.
+End C07Examples.
+
+Print Assumptions C07Examples.ex_inputs_untouched.
+Print Assumptions C07Examples.cex_dir_input.
